@@ -3,6 +3,7 @@ The parameters of the receiving-side stream model as regenerated from the Go sou
 -/
 import Gotlcp.Model.RecordRxStream
 import Gotlcp.Model.RecordRxHandshake
+import Gotlcp.Model.RecordDuplex
 import Gotlcp.Generated.Facts
 
 namespace Gotlcp.Model.RecordRx
@@ -20,9 +21,14 @@ def factsRx : Params where
   alertCloseNotify := Facts.tlcp.alertCloseNotify
   levelWarning := Facts.tlcp.alertLevelWarning
   levelError := Facts.tlcp.alertLevelError
+  eofShortOnlyWhenShort := Facts.tlcp.rxAtLeastShortOnlyWhenShort
 
 def factsHs : HsParams where
   typeFinished := Facts.tlcp.typeFinished
   maxHandshake := Facts.tlcp.maxHandshake
+
+/-- which deadline setters the library calls on its own (for `CloseWrite` / `closeNotify`) -/
+def factsDuplex : RecordDuplex.Params where
+  deadlineCalls := Facts.tlcp.rxDeadlineCalls
 
 end Gotlcp.Model.RecordRx
